@@ -12,7 +12,7 @@ PROPS = {
         ],
     },
     "C12": {
-        "lean_modules": ["JrpcProofs.Props.C12", "JrpcProofs.Facts.Dispatch", "JrpcProofs.Facts.Codes", "JrpcProofs.Facts.Call", "JrpcProofs.Facts.Naming", "JrpcProofs.Trans.Naming"],
+        "lean_modules": ["JrpcProofs.Props.C12", "JrpcProofs.Facts.Dispatch", "JrpcProofs.Facts.Codes", "JrpcProofs.Facts.Call", "JrpcProofs.Facts.Naming", "JrpcProofs.Trans.Naming", "JrpcProofs.Facts.Reverse"],
         "assumptions": [
             "method names start with an ASCII letter (Go identifiers in the harness do); the lower-first formatter slices one byte",
             "encoding/json is an oracle for per-parameter decodability",
